@@ -16,6 +16,27 @@ def h18a_lossless_total(s):
         assert len(t.value) > 0
 
 
+def outcome18(s):
+    try:
+        tok = Tokenizer(s)
+    except TokenizerError:
+        return None
+    return [t.value for t in tok.items]
+
+
+def h18d_sequence(c0, rest, s2):
+    """formulas are tokenized independently of each other: whatever was tokenized before (accepted or rejected
+    part-way), the next formula is still tokenized losslessly, and the same way as when it is tokenized again"""
+    outcome18(c0 + rest)
+    first = outcome18(s2)
+    again = outcome18(s2)
+    if first is not None:
+        assert "".join(first) == s2
+    assert (first is None) == (again is None)
+    if first is not None:
+        assert first == again
+
+
 def h18b_quoted_not_split(s):
     """a token that starts with a double quote is one complete quoted string: closing quote present,
     inner quotes doubled, and the next token does not continue it"""
@@ -136,12 +157,24 @@ def _mkc(n):
                    stubs=["formula nodes = attribute bags (as C08)"])
 
 
+SEQ_ALPHABET = [(34, 34), (97, 97), (49, 49), (43, 43), (40, 41), (35, 35)]   # " a 1 + ( ) #
+
+
+def _mkd(n1, n2):
+    return Harness(f"H18d-n{n1}-n{n2}", h18d_sequence,
+                   dict(c0=Cases(list('"a1+()#')), rest=StrDom(n1 - 1, SEQ_ALPHABET), s2=StrDom(n2, SEQ_ALPHABET)),
+                   bounds=f"every formula of {n1} characters followed by every formula of {n2} characters (tokenized twice), "
+                          "alphabet \" a 1 + ( ) #",
+                   outside=["longer formulas, other characters", "more than one earlier formula"])
+
+
 def harnesses(tier):
     ns = [0, 1, 2, 3]       # n = 4 (x22 paths) did not finish within 20 minutes on 16 cores: outside the claim
     qs = [4, 5]
     cs = [1] if tier == "quick" else [1, 2]
     names = [_mkn(7)] if tier == "quick" else [_mkn(7), _mkn(8, True)]
-    return [_mk(n) for n in ns] + [_mkq(n) for n in qs] + names + [_mkc(n) for n in cs]
+    ds = [_mkd(2, 2)] if tier == "quick" else [_mkd(2, 2), _mkd(3, 2), _mkd(3, 3)]
+    return [_mk(n) for n in ns] + [_mkq(n) for n in qs] + names + [_mkc(n) for n in cs] + ds
 
 
 HARNESSES = harnesses("thorough")
